@@ -134,6 +134,20 @@ def gen(rng, tier):
             replaced.append(b)
         st = [e for e in GI.rand_state_for(rng, info, extra=0.0) if e[0] not in replaced]
         cases.append({"op": "inst_substitute", "input": [inst, Rs, st], "stream": "inst/%d" % len(Rs)})
+        # ... then FIX a remaining variable (preferably one a replacement mentions) with partial_evaluate and evaluate the
+        # rest through evaluate_samples + get: the replaced variables must still be recovered
+        mentioned = set()
+        for R in Rs:
+            for _, f in R:
+                mentioned |= G.fn_ids(f)
+        cand = [e for e in st if e[0] in mentioned] or st
+        if cand and k % 2 == 0:
+            fx = rng.choice(cand)
+            sts = []
+            for _ in range(rng.randint(1, 3)):
+                sts.append([e for e in GI.rand_state_for(rng, info, extra=0.0) if e[0] not in replaced and e[0] != fx[0]])
+            samples = [[s_, [7 * j + 1] if j else [0, 2 ** 40 + 1]] for j, s_ in enumerate(sts)]
+            cases.append({"op": "subst_pe_samples", "input": [inst, Rs, [fx], samples], "stream": "inst/fix-then-samples"})
     for k in range(60 if tier == "quick" else 600):
         cases.append(deps_graph_case(rng))
     for k in range(40 if tier == "quick" else 400):
@@ -145,6 +159,6 @@ def nontrivial(case):
     if case["op"] == "fn_substitute":
         ids = G.fn_ids(case["input"][0])
         return any(r[0] in ids for r in case["input"][1])
-    if case["op"] in ("inst_substitute", "subst_penalty_eval"):
+    if case["op"] in ("inst_substitute", "subst_penalty_eval", "subst_pe_samples"):
         return len(case["input"][1]) >= 1
     return len(case["input"][0][5]) >= 2
